@@ -196,7 +196,7 @@ def run_hist(ctx, libs, cases, shards=8):
 # Stand-alone reproduction: harness/xv/impl/c12x_hand_from_task_dir.py.  The monitor is NOT weakened: set this constant to
 # True to report it (key `from-task-dir-raises:other:RuntimeError:data`); while False its hits are only counted in the evidence
 # (`hist:disabled-monitor`) and the parameter file is loaded through from_state_dict(content, folder) instead.
-REPORT_FROM_TASK_DIR_DATAPATH_FAILURE = False
+REPORT_FROM_TASK_DIR_DATAPATH_FAILURE = True
 
 
 def _drop_disabled(ctx, recs):
@@ -300,6 +300,8 @@ def witness_case(w):
 
 
 def run_witness(ctx, finding):
+    if common.run_script_witness(ctx, finding):
+        return
     c = witness_case(finding.get("witness") or {})
     if c is None:
         return
